@@ -68,4 +68,39 @@ every worker stores into the slot of its own index -/
 def collect (n : Nat) (completion : List (Nat × Msg)) : List Msg :=
   (List.range n).map fun i => ((completion.find? (fun p => p.1 == i)).map (·.2)).getD []
 
+/-! ### sheet specifiers of `Merger` / `Scatter` (`importer.GetMergerImporters`, `GetScatterImporters`) -/
+
+/-- a sheet specifier, resolved against the secondary books `0 … n-1` of the primary book's directory -/
+inductive Specifier where
+  | glob                          -- `Part*.<ext>`: every secondary book, the sheet named like the primary's
+  | book (i : Nat)                -- one book, the sheet named like the primary's
+  | sheet (i : Nat) (name : String)
+deriving Repr
+
+/-- the (book, sheet) pairs one specifier stands for -/
+def Specifier.pairs (n : Nat) (primarySheet : String) : Specifier → List (Nat × String)
+  | .glob => (List.range n).map (·, primarySheet)
+  | .book i => if i < n then [(i, primarySheet)] else []
+  | .sheet i s => if i < n then [(i, s)] else []
+
+/-- the importers of a Merger / Scatter option: the pairs of every specifier, in the order of the specifiers
+(one importer per pair — a book named by two specifiers with different sheets is read twice, once per sheet) -/
+def importers (n : Nat) (primarySheet : String) (specs : List Specifier) : List (Nat × String) :=
+  specs.flatMap (Specifier.pairs n primarySheet)
+
+/-- rows of sheet `name` of a book given as (sheet name, rows) pairs -/
+def sheetRows {α : Type} (book : List (String × List α)) (name : String) : List α :=
+  ((book.find? (·.1 == name)).map (·.2)).getD []
+
+/-- what a Merger sheet states: the rows of the primary sheet and of every importer -/
+def mergedRows {α : Type} (main : List α) (books : List (List (String × List α))) (primarySheet : String)
+    (specs : List Specifier) : List α :=
+  main ++ (importers books.length primarySheet specs).flatMap fun p => sheetRows (books.getD p.1 []) p.2
+
+/-- what a Scatter sheet writes: (book index or `none` for the primary, sheet name, rows) per output file -/
+def scatteredFiles {α : Type} (main : List α) (books : List (List (String × List α))) (primarySheet : String)
+    (specs : List Specifier) : List (Option Nat × String × List α) :=
+  (none, primarySheet, main) ::
+    (importers books.length primarySheet specs).map fun p => (some p.1, p.2, sheetRows (books.getD p.1 []) p.2)
+
 end TableauVerif.Model.Sheets
